@@ -222,12 +222,12 @@ fn compile(dir: &Path, src: &Path, name: &str, cfg: Cfg) -> (i32, Vec<u64>, Path
     c.arg(src).arg(&out);
     let o = c.output().expect("spawn chewing-cli init-database");
     let mut errs = vec![];
+    // a report is any stderr line that names "line <number>" (wording beyond that is not fixed by the property)
     for l in String::from_utf8_lossy(&o.stderr).lines() {
-        if let Some(rest) = l.strip_prefix("Parsing failed at line ") {
-            if let Some((n, _)) = rest.split_once(':') {
-                if let Ok(n) = n.parse::<u64>() {
-                    errs.push(n);
-                }
+        if let Some(i) = l.find("line ") {
+            let digits: String = l[i + 5..].chars().take_while(|c| c.is_ascii_digit()).collect();
+            if let Ok(n) = digits.parse::<u64>() {
+                errs.push(n);
             }
         }
     }
